@@ -89,6 +89,16 @@ theorem run_read_write (g : Growth) (hg : g.OK) (c : Codec α) (z : α) (l l0 : 
   simp only [Int.toNat_natCast, TL.toArray_eq_abs]
   rw [← hlen]; exact h
 
+/-- a strict prefix of a written list never reads back (the reader asks for bytes that are not
+    there — in Go: `ReadBytes` panics), whatever the receiving list -/
+theorem run_read_prefix_fails (g : Growth) (hg : g.OK) (c : Codec α) (z : α) (l l0 : TL α)
+    (q s : Bytes) (hi : TL.Inv l) (hi0 : TL.Inv l0) (hsz : l.size < 8388608)
+    (hw : ∀ x ∈ TL.abs l, c.wf x) (hb : l0.size + l.size ≤ TL.BOUND)
+    (hs : s ≠ []) (hq : q ++ s = write c l) : P.run (read g c z l0) q = none := by
+  obtain ⟨l', h, _, _⟩ := run_read_write g hg c z l l0 [] hi hi0 hsz hw hb
+  rw [List.append_nil, ← hq] at h
+  exact P.prefix_fails (read g c z l0) q s l' hs h
+
 /-- the documented limit: from 2^23 elements on the 24-bit count reads back negative and the
     reader takes nothing -/
 theorem run_read_count_wraps (g : Growth) (c : Codec α) (z : α) (l l0 : TL α) (r : Bytes)
